@@ -47,29 +47,6 @@ PROPS["C33"] = {
     "not_covered": [],
 }
 
-PROPS["C29"] = {
-    "ready": False,
-    "level": "other",
-    "technique": "Kani bounded proof harness on the real Map32 driven through the VMMap trait by symbolic allocate/free histories of two spaces, against a shadow model (CBMC); sequential histories, bounded stand-in",
-    "anchors": [("allocate_contiguous_chunks", "src/util/heap/layout/map32.rs"), ("free_contiguous_chunks_no_lock", "src/util/heap/layout/map32.rs"),
-                ("finalize_static_space_map", "src/util/heap/layout/map32.rs"), ("get_next_contiguous_region", "src/util/heap/layout/map32.rs")],
-    "kani": {"prefix": "c29_", "files": ["c29_map32.rs"], "timeout_quick": 2400, "timeout_thorough": 5400},
-    "functions": ["Map32::{new, finalize_static_space_map, insert, allocate_contiguous_chunks, free_contiguous_chunks, free_contiguous_chunks_no_lock, get_next_contiguous_region, "
-                  "get_contiguous_region_chunks, get_available_discontiguous_chunks, get_descriptor_for_address}", "IntArrayFreeList::{new, alloc, free, size, resize_freelist, set_uncoalescable} as used by Map32 (real code)",
-                  "SpaceDescriptor::{create_descriptor, is_empty}"],
-    "explanation": "BOUNDED, SEQUENTIAL HISTORIES. The real Map32 (its own new() with the 64-bit max_chunks, its own finalize_static_space_map over a discontiguous range of 4 chunks) is driven by every "
-                   "history of 3 (quick) / 4 (thorough) symbolic operations -- allocate 1..2 chunks for space 1 or 2 in front of its current head region, or free any region of either space (head, middle or tail) -- "
-                   "as CommonPageResource drives it. After each operation, against a shadow model: allocated regions are inside the range and disjoint; allocation fails only when no free run of that length exists; "
-                   "every chunk's descriptor (at any address inside the chunk) names its owning space while allocated and is cleared when free; walking each space's list with get_next_contiguous_region visits exactly "
-                   "its allocated regions in order with their sizes, back links mirror forward links, the head has no predecessor and the list is acyclic; a freed region is unlinked; free returns the region size; "
-                   "get_available_discontiguous_chunks equals the chunks not allocated.",
-    "bounds": ["discontiguous range of 4 chunks", "histories of 3 operations (quick) / 4 operations (thorough), 2 spaces, regions of 1..2 chunks", "loops unwound to 20 with unwinding assertions"],
-    "assumptions": ["sequential histories only: the Mutex is taken but mutual exclusion of concurrent callers is not verified", "the head passed to allocate_contiguous_chunks is the space's most recent region (what CommonPageResource passes)"],
-    "trusted_base": ["SFT_MAP.clear(chunk_start) in free_contiguous_chunks_no_lock is compiled out under cfg(kani) (global dyn SFTMap singleton; it does not touch the region map)",
-                     "CBMC's model of the 2^25-entry zero-initialised vectors Map32::new allocates"],
-    "not_covered": ["concurrent callers", "free_all_chunks", "create_freelist / create_parent_freelist / the global page map's contents", "ranges of more than 4 chunks, histories longer than 4 operations"],
-}
-
 # ---------------------------------------------------------------------------------------------
 # Properties this family cannot decide (DESIGN.md section 5); mirrored into MANIFEST.json.
 # ---------------------------------------------------------------------------------------------
@@ -89,7 +66,7 @@ NOT_APPLICABLE = {
     "C14": "liveness under all interleavings (condvars, parked-worker counts); Kani has no threads and liveness is outside contracts",
     "C15": "schedule-quantified protocol property of GCWorkScheduler/WorkBucket",
     "C16": "schedule-quantified protocol property of worker shutdown/fork",
-    "C29": "Map32 is welded to the global SFT_MAP (dyn-trait lazy static), vm_layout() and UnsafeCell/mut_self aliasing; cannot be extracted without rewriting it into a model. Its free-list substrate is covered by C26",
+    "C29": "Map32 keeps its state behind UnsafeCell/mut_self aliasing and 2^25-entry per-chunk tables, and calls the global SFT_MAP: Verus extraction would need a rewrite into a model; a bounded Kani harness on the real Map32 (kani/src/c29_map32.rs, kept as an experiment) fails inside CBMC ('array too large for flattening' with the real tables; out of memory at propositional reduction even with max_chunks stubbed to 16 and no operation performed). Its free-list substrate is covered by C26",
     "C30": "transition logic lives in closures calling mmap (FFI) inside bulk_transition_state over 8192-entry lazily allocated slabs; stubbing the OS and trait-object storage would leave little of the real path. The group-by it relies on is C40",
     "C39": "string grammars through regex/to_lowercase/str::parse/String: Verus rejects str byte reasoning, Kani explodes on regex/Unicode tables; the 3-line validate-then-assign would not carry the property",
 }
